@@ -302,6 +302,95 @@ def gram_service(entry, pkts, script):
     return "%s sent=%s q=%s" % (status, fmt(sock.sent), fmt([(p.packed, da) for p, da in stack.txPkts]))
 
 
+def gram_passes(entries, pkts, script):
+    """several service passes on one GramStack; per pass: status, packets sent in it, queue after it, and how many
+    scripted sendto answers were left when it began"""
+    from ioflo.aio.proto import stacking
+    from ioflo.aio.udp import udping
+    handler = udping.SocketUdpNb(ha=("127.0.0.1", 0))
+    handler.reopen = lambda: True
+    stack = stacking.GramStack(handler=handler)
+    sock = ScriptedUdp(script)
+    handler.ss, handler.opened = sock, True
+    for pid, dest in pkts:
+        stack.txPkts.append((types.SimpleNamespace(packed=bytes([pid])), ("10.0.0.%d" % dest, 4000 + dest)))
+    fmt = lambda items: ",".join("%d:%d" % (data[0], da[1] - 4000) for data, da in items) or "."
+    out = []
+    for entry in entries:
+        n0, left = len(sock.sent), len(sock.script)
+        status = "ok"
+        try:
+            getattr(stack, entry)()
+        except OSError:
+            status = "raised"
+        except Exception as ex:
+            status = "ERR-" + type(ex).__name__
+        out.append("%s sent=%s q=%s left=%d" % (status, fmt(sock.sent[n0:]),
+                                               fmt([(p.packed, da) for p, da in stack.txPkts]), left))
+    return " ; ".join(out)
+
+
+def client_session(tls, ops):
+    """a Client / ClientTls through close / re-open cycles; every connection gets a fresh socket double, and each
+    receive / send is attributed to the double whose recv / send was really called"""
+    from ioflo.aio.tcp import clienting
+    from ioflo.base import storing
+    store = storing.Store(stamp=0.0)
+    if tls:
+        t = clienting.ClientTls(context=D.Ctx(), ha=("127.0.0.1", 5001), bufsize=16, store=store)
+    else:
+        t = clienting.Client(ha=("127.0.0.1", 5001), bufsize=16, store=store)
+    socks, out = [], []
+    calls = lambda: [len(k.recv_log) + len(k.send_log) for k in socks]
+    for op in ops:
+        if op[0] == "reopen":
+            t.reopen()                               # close() + open(): a real, unconnected socket ...
+            t.cs.close()
+            k = D.Sock(tls=bool(tls))                # ... replaced by the double this connection runs on
+            k.connect_ex = lambda ha: 0
+            k.handshakes.append(("ok",))
+            socks.append(k)
+            t.cs = k
+            t.connect()
+            out.append("opened:%d" % (len(socks) - 1) if t.connected else "ERR not connected")
+        elif op[0] == "close":
+            t.close()
+            out.append("closed")
+        else:
+            is_send, ans = op[0] == "s", op[1]
+            cur = socks[-1] if socks else None
+            if cur is not None and not cur.closed:
+                item = ("raise", make_exc(*ans)) if ans is not None else (("acc", 2) if is_send else ("data", b"xy"))
+                (cur.sends if is_send else cur.recvs).append(item)
+            before = calls()
+            try:
+                ret = t.send(b"ab") if is_send else t.receive()
+                raised = None
+            except OSError as ex:
+                ret, raised = None, ex
+            except AttributeError:
+                out.append("nosock")
+                continue
+            except Exception as ex:
+                out.append("ERR-" + type(ex).__name__)
+                continue
+            hit = [i for i, (a, b) in enumerate(zip(before, calls())) if b > a]
+            k = hit[0] if len(hit) == 1 else -1
+            if ans is None and raised is None and ret in (2, b"xy"):
+                out.append("done:%d" % k)
+            else:
+                out.append("cls:%d:%s:%d" % (k, "raised" if raised is not None else show(ret), int(bool(t.cutoff))))
+            if cur is not None:                      # answers are per call
+                cur.sends.clear()
+                cur.recvs.clear()
+    if socks or True:
+        try:
+            t.close()
+        except Exception:
+            pass
+    return " ; ".join(out) or "."
+
+
 class CHECK(core.Check):
     PROPERTY = "C25"
     LEAN_MODULES = ["IofloModel.Props.C25"]
@@ -321,7 +410,10 @@ class CHECK(core.Check):
             "produced is recorded and classified by the model, the observed outcome compared. Plus the datagram stack's five "
             "transmit entry points (serviceTxPkts, serviceTxPktsOnce, serviceAllTx, serviceAllTxOnce, serviceAll) over every "
             "queue of <= 3 packets to 2 destinations and every script of <= 2 (quick) / 3 (thorough) sendto answers "
-            "(sent, two transient errnos, one fatal), and random longer ones: packets sent and packets still queued compared.")
+            "(sent, two transient errnos, one fatal), and random longer ones: packets sent and packets still queued compared; "
+            "every pair of passes on one stack (error on one pass, recovery on the next); Client and ClientTls through "
+            "every history of <= 3 (quick) / 4 (thorough) receive / send / close / re-open steps with reset, would-block, "
+            "EPIPE and success answers, each call attributed to the socket double that really served it.")
     TRUSTED = ["correspondence: the real methods run in-process over doubles whose socket call raises the scripted exception; "
                "ssl context stub whose wrap_socket returns the double; GramStack over a SocketUdpNb whose .ss is a double",
                "errno values are Linux's; the model's constants are compared with Python's errno/ssl modules on every run",
@@ -363,6 +455,22 @@ class CHECK(core.Check):
                 for n in range(0, (3 if tier == "thorough" else 2) + 1):
                     for sc in itertools.product(answers, repeat=n):
                         yield {"gram": entry, "pkts": q, "script": [a for a in sc]}
+        # several passes on one stack: an error on one pass, recovery expected on a later one
+        ans2 = [None, ["osError", errno.ECONNREFUSED], ["osError", errno.EPIPE]]
+        for passes in itertools.product(GRAM_ENTRIES, repeat=2):
+            for q in queues:
+                for n in range(0, (3 if tier == "thorough" else 1) + 1):
+                    for sc in itertools.product(ans2, repeat=n):
+                        yield {"gramseq": list(passes), "pkts": q, "script": [a for a in sc]}
+        # clients through close / re-open cycles
+        sops = [["reopen"], ["close"], ["r", None], ["s", None], ["r", ["osError", errno.ECONNRESET]],
+                ["s", ["osError", errno.EAGAIN]], ["s", ["osError", errno.EPIPE]]]
+        for tls in (0, 1):
+            wb = ["s", ["sslWantWrite", ssl.SSL_ERROR_WANT_WRITE]] if tls else ["s", ["osError", errno.EAGAIN]]
+            alpha = [o if o[0] != "s" or o[1] is None or o[1][1] != errno.EAGAIN else wb for o in sops]
+            for n in range(1, (4 if tier == "thorough" else 3) + 1):
+                for seq in itertools.product(alpha, repeat=n):
+                    yield {"sess": tls, "ops": [["reopen"]] + [list(o) for o in seq]}
         codes = range(0, 136) if tier == "thorough" else INTERESTING
         for code in codes:
             yield {"connect": code}
@@ -378,6 +486,13 @@ class CHECK(core.Check):
             if x < 0.03:
                 yield {"connect": rng.choice([0, errno.EISCONN, errno.EINVAL, errno.ECONNREFUSED, errno.EINPROGRESS,
                                               rng.randrange(200)])}
+                continue
+            if x < 0.05:
+                n = rng.randrange(1, 6)
+                yield {"gramseq": [rng.choice(GRAM_ENTRIES) for _ in range(rng.randrange(2, 6))],
+                       "pkts": [[i + 1, rng.choice([7, 8, 9])] for i in range(n)],
+                       "script": [rng.choice([None, ["osError", rng.choice(D.LOSS)], ["osError", rng.choice(D.LOSS)],
+                                              ["osError", rng.choice(D.OTHER)]]) for _ in range(rng.randrange(0, n + 2))]}
                 continue
             if x < 0.10:
                 n = rng.randrange(1, 7)
@@ -415,6 +530,18 @@ class CHECK(core.Check):
         if "real" in case:
             eq = self.equiv(case)
             return self.requests(eq) if eq is not None else ["errno EAGAIN"]
+        if "gramseq" in case:
+            pk = ",".join("%d:%d" % (i, d) for i, d in case["pkts"]) or "."
+            ans = " ".join("ok" if a is None else "%s:%d" % (a[0], a[1]) for a in case["script"])
+            return [("gramseq %s %s %s %s" % (MODEL, ",".join(case["gramseq"]), pk, ans)).rstrip()]
+        if "sess" in case:
+            toks = []
+            for op in case["ops"]:
+                if op[0] in ("reopen", "close"):
+                    toks.append(op[0])
+                else:
+                    toks.append("%s:ok" % op[0] if op[1] is None else "%s:%s:%d" % (op[0], op[1][0], op[1][1]))
+            return ["sess %s %d %s" % (MODEL, case["sess"], " ".join(toks))]
         if "gram" in case:
             pk = ",".join("%d:%d" % (i, d) for i, d in case["pkts"]) or "."
             ans = " ".join("ok" if a is None else "%s:%d" % (a[0], a[1]) for a in case["script"])
@@ -491,6 +618,10 @@ class CHECK(core.Check):
                 eq, obs = None, "real-skip"
             self._equiv[core.case_key(case)] = eq
             return [obs]
+        if "gramseq" in case:
+            return [gram_passes(case["gramseq"], case["pkts"], case["script"])]
+        if "sess" in case:
+            return [client_session(case["sess"], case["ops"])]
         if "gram" in case:
             return [gram_service(case["gram"], case["pkts"], case["script"])]
         if "const" in case:
@@ -587,6 +718,10 @@ class CHECK(core.Check):
         if "real" in case:
             eq = self.equiv(case)
             return None if eq is None else self.oracle(eq, out)
+        if "gramseq" in case:
+            return self._oracle_gramseq(case, out[0])
+        if "sess" in case:
+            return self._oracle_sess(case, out[0])
         if "gram" in case:
             # transient destination errors are retryable: if nothing else went wrong, nothing is raised and every
             # packet has been sent or is still queued - never lost, never duplicated
@@ -652,6 +787,66 @@ class CHECK(core.Check):
 
     _regions = {}
 
+    def _oracle_gramseq(self, case, line):
+        ids = lambda f: [] if f.split("=")[1] == "." else [int(e.split(":")[0]) for e in f.split("=")[1].split(",")]
+        what = "%s on %s script %s" % (case["gramseq"], case["pkts"], case["script"])
+        transient_only = all(a is None or (a[0] == "osError" and a[1] in D.LOSS) for a in case["script"])
+        sent_all, q = [], [i for i, _ in case["pkts"]]
+        for entry, seg in zip(case["gramseq"], line.split(" ; ")):
+            status, sent, queue, left = seg.split()
+            if transient_only and status != "ok":
+                return "%s: a transient destination error was fatal in pass %s (%s)" % (what, entry, status)
+            sent_all += ids(sent)
+            # a transient error stays transient: a whole-queue pass in which every sendto succeeds sends everything
+            if left == "left=0" and status == "ok" and not entry.endswith("Once") and ids(queue):
+                return ("%s: pass %s met no send error, yet packets %s stay queued (an error of an earlier pass still "
+                        "blocks their destination)" % (what, entry, ids(queue)))
+            q = ids(queue)
+        if transient_only and sorted(sent_all + q) != sorted(i for i, _ in case["pkts"]):
+            return "%s: sent %s + still queued %s are not the packets that were queued" % (what, sent_all, q)
+        return None
+
+    def _oracle_sess(self, case, line):
+        tls = case["sess"]
+        outs = line.split(" ; ")
+        if len(outs) != len(case["ops"]):
+            return "session adapter: %s" % line[:200]
+        newest, is_open, cut = -1, False, 0
+        for i, (op, o) in enumerate(zip(case["ops"], outs)):
+            what = "op %d %s of %s" % (i, op, "ClientTls" if tls else "Client")
+            if o.startswith("ERR"):
+                return "%s: %s" % (what, o)
+            if op[0] == "reopen":
+                newest, is_open, cut = newest + 1, True, 0
+                if o != "opened:%d" % newest:
+                    return "%s: %s" % (what, o)
+            elif op[0] == "close":
+                is_open = False
+            else:
+                if not is_open:
+                    continue                    # no socket: whatever happens is outside the property
+                parts = o.split(":")
+                if parts[0] == "nosock" or int(parts[1]) != newest:
+                    return ("%s: the call did not reach the socket of the current connection (%d) but %s"
+                            % (what, newest, o))
+                site = ("clientTls" if tls else "client") + ("Send" if op[0] == "s" else "Recv")
+                if op[1] is None:
+                    if parts[0] != "done":
+                        return "%s: the socket answered, the transport reports %s" % (what, o)
+                    continue
+                if parts[0] != "cls":
+                    return "%s: the socket raised, the transport reports %s" % (what, o)
+                cls, n = op[1]
+                if not well_formed(site, cls, n):
+                    cut = int(parts[3])
+                    continue
+                why = self.oracle({"site": site, "cls": cls, "arg0": n, "cut": cut},
+                                  ["ret=%s cut=%s open=1" % (parts[2], parts[3])])
+                if why is not None:
+                    return "%s: %s" % (what, why)
+                cut = int(parts[3])
+        return None
+
     def region(self, finding, case):
         if "real" in case:
             case = self.equiv(case) or {}
@@ -666,6 +861,10 @@ class CHECK(core.Check):
     def nontrivial(self, case, out):
         if "real" in case:
             return self.equiv(case) is not None
+        if "gramseq" in case:
+            return any(a is not None for a in case["script"])
+        if "sess" in case:
+            return sum(1 for o in case["ops"] if o[0] == "reopen") >= 2 and any(o[0] in "rs" for o in case["ops"])
         if "gram" in case:
             return any(a is not None for a in case["script"][:len(case["pkts"])])
         if "site" not in case:
@@ -677,6 +876,10 @@ class CHECK(core.Check):
             eq = self.equiv(case)
             return "real/%s/%s" % (case["real"], "no-error" if eq is None else
                                    eq.get("arg0", eq.get("connect")))
+        if "gramseq" in case:
+            return "gramseq/%d-passes/%s" % (len(case["gramseq"]), "errors" if any(case["script"]) else "clean")
+        if "sess" in case:
+            return "session/%s/%d-reopens" % ("tls" if case["sess"] else "plain", sum(1 for o in case["ops"] if o[0] == "reopen"))
         if "gram" in case:
             kinds = {"sent" if a is None else "transient" if a[1] in D.LOSS else "other" for a in case["script"]}
             return "gram/%s/%s" % (case["gram"], "+".join(sorted(kinds)) or "empty")
